@@ -451,8 +451,12 @@ PROPS = {
                       "MDOChain.copy_jacs (blocks = references into a symbolic heap of arrays): same outputs, same inputs per output, every block a FRESH array with the content of the source "
                       "block, the argument and every existing array untouched (two loop invariants). contracts.c09_numeric: copy_jacs on ONE row {input: block} (the flat-dictionary branch, the call made by "
                       "reverse_chain_rule): same inputs, every block a fresh array with the content of the source block, copies pairwise distinct, existing arrays untouched. "
-                      "The chain rule of MDOChain (reverse accumulation): a complete step contract of reverse_chain_rule over the abstract matrix ring exists (contracts.c09_numeric, three nested loop "
-                      "invariants, registered only with C09N_WIP=1) but is NOT part of the claim: three preservation obligations of its middle loop are not discharged within the quick budget; see not_covered.",
+                      "MDOChain.reverse_chain_rule (repaired source 53b5901; contracts.c09_numeric, blocks = references into the heap of arrays denoting matrices of the abstract ring of C07, three nested loop invariants, "
+                      "any number of chain outputs / row entries / blocks): ONE exact step of the reverse accumulation - for every chain output o the running dictionary J holds and EVERY variable v, "
+                      "J'[o][v] = (J[o][v] unless the discipline produces v) (+) sum over y in sorted(keys J[o] & keys D) with v in D[y] of J_entry[o][y] * D[y][v] (recursive ghost fold c09n_g over the sorted enumeration, "
+                      "absent = structural zero; the entries of the produced variables are dropped unless re-created by the composition: overwritten and self-coupled variables included); a chain output J does not hold and "
+                      "the discipline produces gets a fresh copy of D[o]; every other row, every array of the disciplines (watermark frame) and every popped block are untouched - the in-place += only hits blocks owned by "
+                      "the row - and the blocks of J stay allocated, above the watermark and pairwise distinct. The composition of the steps by MDOChain._compute_jacobian (T_k recursion) is not addressed; see not_covered.",
         "level_note": "Chains: disciplines are opaque, their Jacobians a ghost dictionary of the chain (pyvc/plug_c09.py); ASSUMED: the summary of MDOParallelChain._compute_jacobian "
                       "(prophecy ghosts for what the parallel linearisation leaves in the disciplines and in self.jac), the constructor model of CouplingStructure (its graph is the "
                       "dependency graph specified by the contract verified on __create_graph), shapes of linearised blocks = variable sizes (what Discipline._check_jacobian_shape enforces), "
@@ -472,16 +476,19 @@ PROPS = {
             "chains: discipline.jac of an opaque discipline is its slot in a ghost dictionary of the chain; a block read from it is the block of that slot (in-place writes are written back)",
             "chains: after MDOParallelChain._compute_jacobian every discipline's jac is a dictionary; blocks of the pair (o, x) have shape (size(o), size(x))",
             "chains: MDOChain class invariant - _coupling_structure is None implies _last_diff_inouts is None (both set by __init__, only _compute_diff_in_outs assigns them)",
+            "chain rule (pyvc/plug_c09n.py): array blocks denote matrices of the abstract ring (a @ b / a + b allocate a fresh array denoting the product / sum, a += b updates a in place; shapes not modelled); "
+            "discipline.linearize leaves in discipline.jac the dictionary of the ghost slot _c09n_disc_jacs[discipline] held in arrays existing at entry (at or below a watermark); sorted(set(a) & set(b)) and the iteration "
+            "order of a dictionary are bijective enumerations (order itself not modelled); {x: d.pop(x) for x in names} = the popped entries in list order; the dictionary read from a slot of a dictionary of dictionaries "
+            "is the live object already standing for that slot (reference semantics), also across loop iterations; definitional axioms of the step fold c09n_g and of the always-true trigger functions",
         ],
         "bounded_standins": ["MDOAdditiveChain._compute_jacobian@two-disciplines: 2 disciplines (possibly the same twice), 1 summed output, 1 requested input, symbolic names, shapes and block contents"],
         "not_covered": [
             "for a path of length >= 1: that the requested input x is a differentiated input of the first discipline and the requested output o a differentiated output of the last one (the contracts of _merge_diff_ios give it once a first/last edge is exhibited; exhibiting it needs the unfolding axiom of reach)",
             "exactness/minimality of the selection (only coverage is proved for the traversals and merges)",
             "ValueError of traverse_add_diff_io (allowed, not characterised; the state of the request cache after it is not specified)",
-            "MDOChain.reverse_chain_rule/_compute_jacobian accumulation (numerical chain rule, matrix products), Discipline._init_jacobian (zero blocks for independent pairs); work in progress in "
-            "contracts/c09_numeric.py + pyvc/plug_c09n.py (C09N_WIP=1). Two defects of the accumulation were replayed natively and are NOT under contract: (a) a discipline with a variable both produced and read "
-            "and another output sorted before it (polluted in-place += block), (b) overwritten variables - a variable produced by two disciplines, or read before the discipline that (re)produces it - whose stale "
-            "adjoint is chained again (MDOChain of y=2x, y=5x, o=7y: do/dx = 49 instead of 35)",
+            "MDOChain._compute_jacobian: the composition of the verified steps of reverse_chain_rule over the disciplines in reverse order (T_k recursion, initial deep copy - needs the pairwise distinctness of the copies of a "
+            "nested dictionary -, final filtering to the requested inputs) and Discipline._init_jacobian (zero blocks for independent pairs); in reverse_chain_rule: shapes of the blocks (ValueError of @ / +=), "
+            "JacobianOperator blocks, the lexicographic order of sorted() (the fold is over the enumeration sorted() returns, whatever it is), that a local alias of a row stays bound to its slot across loop iterations (model assumption)",
             "copy_jacs: JacobianOperator blocks; pairwise distinctness of the fresh copies of a NESTED dictionary among themselves (proved for one row: copy_jacs@row)",
             "MDOParallelChain._compute_jacobian itself (assumed summary: parallel execution machinery, merge loop), MDAChain, nested combinations",
             "additive chain: that the disciplines' blocks are the exact Jacobians of the disciplines (opaque), sparse / JacobianOperator blocks, numpy broadcasting of blocks of unequal shapes",
